@@ -15,8 +15,8 @@ from kawin.thermo.FreeEnergyHessian import dMudX
 from kawin.thermo.Mobility import MobilityModel, inverseMobility, inverseMobility_from_diffusivity, tracer_diffusivity, tracer_diffusivity_from_diff
 
 SampledPointsCache = namedtuple('SampledPointsCache', 
-                               ['temperature', 'samples', 'ordered_samples'],
-                               defaults=(None, None, None))
+                               ['temperature', 'samples', 'ordered_samples', 'conditions'],
+                               defaults=(None, None, None, None))
 
 class ExtraFreeEnergyType(v.IndependentPotential):
     implementation_units = 'joules'
@@ -1061,7 +1061,7 @@ class GeneralThermodynamics:
         precPoints = sample_data.samples
         orderedPoints = sample_data.ordered_samples
 
-        if precPoints is None or prevT != T:
+        if precPoints is None or prevT != T or sample_data.conditions != local_phase_sampling_conditions:
             precPoints = calculate(self.db, self.elements, phases[0], 
                                    pdens=self.sampling_pDens, model=sub_models, output='GM', 
                                    phase_records=self.phase_records, conditions=local_phase_sampling_conditions, 
@@ -1070,7 +1070,7 @@ class GeneralThermodynamics:
                 orderedPoints = calculate(self.db, self.elements, phases[0], 
                                           pdens=self.sampling_pDens, model=sub_models, output='OCM', 
                                           phase_records=self.phase_records, to_xarray=False, **str_cond)
-            self._points_cache[precPhase] = SampledPointsCache(temperature=T, samples=precPoints, ordered_samples=orderedPoints)
+            self._points_cache[precPhase] = SampledPointsCache(temperature=T, samples=precPoints, ordered_samples=orderedPoints, conditions=local_phase_sampling_conditions)
 
         #For phases at fixed composition, there will only be 1 set of site fractions
         #So we force composition and site fractions to be 2D
